@@ -73,6 +73,31 @@ def replay_state(st):
                         bad.append(("C12.dist-scaling", dict(relative=rel, representation=rname, **w), want.tolist(), got.tolist(), c))
                 except Exception as ex:
                     bad.append(("C12.no-error", dict(op="gamut_dist_scaling", relative=rel, representation=rname, exc=type(ex).__name__, **w), None, repr(ex)[:200], c))
+    # capture-unit twins: the same plain system measured in a tiny physical unit (power of two: exact in floating
+    # point).  Absolute scalings of u * B must be u times the scalings of B.
+    if plain:
+        U = 2.0 ** -30
+        try:
+            A, lb, ub, K, bl = dsys.floats(s)
+            F, Ssrc = dsys.filters_sources(A)
+            estu = dreye.ReceptorEstimator(F * U, domain=1.0)
+            estu.register_system(Ssrc, lb=lb, ub=ub)
+            for c in sorted(st["cases"], key=lambda c: c["Bs"])[::3]:
+                B = np.asarray(c["Bs"], float) / S
+                w = dict(rows=len(B), unit="2^-30", allin=c["dist"]["allin"], **where0)
+                if default_neutral:
+                    want = np.array([[fr(v) for v in row] for row in c["l1"]]) / S
+                    got = np.asarray(estu.gamut_l1_scaling(B * U, relative=False), float) / U
+                    if got.shape != want.shape or np.max(np.abs(got - want)) > 1e-9 * (1 + np.max(np.abs(want))):
+                        bad.append(("C12.l1-scaling", w, want.tolist(), got.tolist(), c))
+                if c["dist"]["ok"] and c["dist"]["strictly"]:
+                    want = np.array([[fr(v) for v in row] for row in c["dist"]["out"]]) / S
+                    kw = {} if default_neutral else {"neutral_point": nu0.copy()}
+                    got = np.asarray(estu.gamut_dist_scaling(B * U, relative=False, **kw), float) / U
+                    if got.shape != want.shape or np.max(np.abs(got - want)) > 1e-7 * (1 + np.max(np.abs(want))):
+                        bad.append(("C12.dist-scaling", w, want.tolist(), got.tolist(), c))
+        except Exception as ex:
+            bad.append(("C12.no-error", dict(op="capture-unit twin", exc=type(ex).__name__, **where0), None, repr(ex)[:200], None))
     # absolute capture on a system with adaptation / baseline registered: must equal the plain system's answer
     if not plain:
         try:
